@@ -563,7 +563,8 @@ def check_semantics(ctx, items, t, case):
     bad = [i for i in range(1, len(dates)) if sdir * dates[i] < sdir * dates[i - 1]]
     if bad:
         i = bad[0]
-        t.fail("stream/order", "the whole output stream is in chronological order (in the direction of the iteration)", case, "monotone dates",
+        t.fail("stream/order" + ("/backward" if ctx.backward else ""), "the whole output stream is in chronological order (in the direction of "
+               "the iteration)", case, "monotone dates",
                [dates[i - 1], dates[i]], f"items {i-1},{i}: {_lab(items[i-1])} then {_lab(items[i])}")
     # -- values of the watched functions on the samples -------------------------------------------------------
     G = [[float(l(s)) for s in samples] for l in Ls]
@@ -1335,18 +1336,18 @@ def cases(tier):
             out.append(dict(kind="single", orbit=orbit, prop=prop, step=step, mode=mode, lset=[key], dir="bwd"))
         out.append(dict(kind="all", orbit=orbit, prop=prop, step=step, mode=mode, lset=list(LKEYS), dir="bwd"))
     # forward iterations over an explicit list of dates
-    for prop in props:
+    for prop in ("kepler", "sgp4", "ephem"):  # (KeplerNum does not take a list: C08's subject)
         out.append(dict(kind="single", orbit="iss", prop=prop, step=180, mode="dates-list", lset=["node"]))
     # Ephem at its own step over a window: start / stop omitted, on the end points, strictly inside (on a node, between nodes)
     for orbit in ("iss",) if quick else ("iss", "mol"):
-        for lset in (["node"], ["apside", "anom-true-90", "umbra", "sig0"]):
+        for lset in (["node"], ["apside", "sig0"]):
             for sv in ("omit", "first", "node", "between"):
                 for ev_ in ("omit", "last", "node", "between"):
                     out.append(dict(kind="ephwin", orbit=orbit, prop="ephem", step=60, lset=lset, start=sv, stop=ev_))
     # the same events= / listeners= list object handed to several visibility() calls
     for orbit, prop, step in (("iss", "kepler", 180),) if quick else (("iss", "kepler", 180), ("mol", "kepler", 600), ("iss", "sgp4", 180)):
         for kw_name in ("events", "listeners"):
-            for extra in (["node"], ["umbra", "apside"]):
+            for extra in (["node"], ["anom-mean-3", "apside"]):
                 for calls in (["A", "A"], ["A", "B"], ["B", "A", "A"]):
                     out.append(dict(kind="vislist", orbit=orbit, prop=prop, step=step, kw=kw_name, extra=extra, calls=calls))
     # a sample exactly at / one microsecond around an event date
